@@ -641,6 +641,48 @@ def large_structured_programs(tier, use_solve=False):
             yield None
 
 
+def many_key_programs(tier):
+    """solve() with hundreds of answer keys (one per cell of a large board): n keys of which all but the last few are pinned by
+    unit constraints (booleans and integers); the free ones must come out as None, the pinned ones with their values.
+    yields None or a failure dict"""
+    load_repo()
+    from cspuz import Solver
+    for n in ((520, 1100) if tier == "quick" else (511, 512, 513, 520, 700, 1024, 1025, 1100, 2100)):
+        for tail in (1, 4):
+            s = Solver()
+            vs, want = [], {}
+            for i in range(n):
+                if i % 3 == 2:
+                    v = s.int_var(0, 3)
+                    if i < n - tail:
+                        s.ensure(v == (i % 4))
+                        want[v.id] = i % 4
+                    else:
+                        want[v.id] = None
+                else:
+                    v = s.bool_var()
+                    if i < n - tail:
+                        s.ensure(v if i % 2 else ~v)
+                        want[v.id] = bool(i % 2)
+                    else:
+                        want[v.id] = None
+                vs.append(v)
+            s.add_answer_key(vs)
+            try:
+                r = s.solve()
+            except Exception as e:
+                yield dict(kind="exception:%s" % type(e).__name__, detail="%d answer keys, the last %d free: %s: %s" % (n, tail, type(e).__name__, str(e)[:160]), program=["many-keys", n, tail])
+                continue
+            if r is not True:
+                yield dict(kind="sat-mismatch", detail="%d answer keys, the last %d free: solve() returned %r" % (n, tail, r), program=["many-keys", n, tail])
+                continue
+            bad = [(v.id, v.sol, want[v.id]) for v in vs if v.sol != want[v.id] or (want[v.id] is not None and type(v.sol) is not type(want[v.id]))]
+            if bad:
+                yield dict(kind="decided-facts", detail="%d answer keys, the last %d free: (id, sol, expected) %s" % (n, tail, bad[:4]), program=["many-keys", n, tail])
+            else:
+                yield None
+
+
 def wide_operator_programs(tier, use_solve=False):
     """one n-ary operator node with k operands (k around the powers of two and 100), all operands pinned by unit constraints so
     that ONE operand at position p decides the value; a result variable is tied to the node: exactly one model.
